@@ -103,6 +103,22 @@ def obs_expected(ph, policy, now0, now_ns, t, k):
     return "ex=1 ttl=%s len=%d items=%s" % (ttl, ph.length(t, k), ",".join(ph.content(t, k)))
 
 
+def multi_expected(ph, policy, now_ns, keys, mems):
+    """EXISTS k1 k2 .. / MGET / HMGET / SISMEMBER / ZSCORE: an expired key contributes exactly like an absent one"""
+    def live(t, k):
+        stored, exp, ver = ph.header(t, k)
+        return stored and not expired(policy, exp, now_ns)
+
+    def elems(t, k):
+        return ph.el.get((t, k, ph.meta[(t, k)][1]), {}) if live(t, k) else {}
+    ex = sum(1 for k in keys if live("k", k))
+    mg = ",".join(ph.kv[k][2] if live("k", k) else "~" for k in keys)
+    hm = "|".join(",".join(elems("h", k).get("b" + m, "b~")[1:] for m in mems) for k in keys)
+    si = "|".join(",".join("1" if "b" + m in elems("s", k) else "0" for m in mems) for k in keys)
+    zs = "|".join(",".join(elems("z", k).get("b" + m, "i~")[1:] for m in mems) for k in keys)
+    return "exists=%d mget=%s hmget=%s sismember=%s zscore=%s" % (ex, mg, hm, si, zs)
+
+
 # ---------------------------------------------------------------- what a command does to an ABSENT key
 
 def dec(b):
@@ -297,6 +313,24 @@ def oracle(cases, impl, order):
                     if len(bg["after"]) == len(bg["before"]):
                         check_bg_obs(bg, fail, bump)
                         bg = None
+            elif kind == "Q":
+                keys, mems = c[2].split(","), c[3].split(",")
+                want = multi_expected(ph, policy, now_ns, keys, mems)
+                bump("Q")
+                if want.split(" ")[0] != "exists=%d" % sum(1 for k in keys if k in ph.kv):
+                    bump("Q exists over a stored but expired string")
+                if out != want:
+                    sig = None
+                    for part, t in ((2, "h"), (3, "s"), (4, "z")):
+                        if out.split(" ")[part] != want.split(" ")[part]:
+                            for k in keys:
+                                stored, exp, ver = ph.header(t, k)
+                                if policy == "compact" and stored and ver != 0 and stale_same_version(ph, t, k):
+                                    sig = SIG_VERSION
+                    if out.split(" ")[:2] != want.split(" ")[:2]:
+                        sig = None
+                    fail("multiread", cid, "a multi-key / multi-member read (EXISTS k1 k2 .., MGET, HMGET, SISMEMBER, ZSCORE): an expired "
+                         "key must contribute exactly like an absent one: got [%s] want [%s]" % (out, want), sig, keys=c[2])
             elif kind in ("C", "L", "K"):
                 bump(kind)
                 bg = dict(cid=cid, kind=kind, case=c, out=out, before=dict(obs_run), after=None, ph=ph)
@@ -645,7 +679,7 @@ def run(ctx):
         for cf in corpus:
             runs.append(("corpus-" + cf[:-4], "-replay %s" % os.path.join(vlib.VERIF, "corpus", "C10", cf)))
         if quick:
-            runs.append(("fresh", "-seed %d -n 260 -len 30 -engines mem,pebble" % ctx.seed))
+            runs.append(("fresh", "-seed %d -n 230 -len 30 -engines mem,pebble" % ctx.seed))
             runs.append(("rocks", "-seed %d -n 24 -len 30 -engines rocksdb" % (ctx.seed + 7)))
         else:
             runs.append(("fresh", "-seed %d -n 9000 -len 40 -engines mem,pebble" % ctx.seed))
@@ -764,7 +798,7 @@ def run(ctx):
              "or local deletion: writes of every type (KV, hash, set, zset, list) mixed with SETEX / *EXPIRE / *PERSIST / *CLEAR, log timestamps "
              "increasing by 1 ns..3 s, or placed at -1 s / -1 ns / 0 / +1 ns / +1 s around the expiry second of a key, equal to the previous "
              "one, zero, or in another era (100..2000 days before / after the wall clock); after every write the physical dump and the typed "
-             "observation of the key through the production read handlers; compaction-filter steps (production Filter decides, a seeded subset "
+             "observation of the key through the production read handlers; multi-key / multi-member reads (EXISTS k1 k2 k3, MGET, HMGET, SISMEMBER, ZSCORE over both pool keys and a never-written key) after half of the writes and around every background step; compaction-filter steps (production Filter decides, a seeded subset "
              "is dropped) and local-deletion ticks with all keys observed before and after; read-clock probes through the hook at chosen "
              "clocks. Non-trivial = every write / background step / probe, distinct by hash of its line.",
         histogram=hist_all,
